@@ -18,6 +18,7 @@ _MODULES = {
     "C16": ("scen_c16", "C16"),
     "C18": ("scen_c18", "C18"),
     "C19": ("scen_fs", "C19"),
+    "C20": ("scen_c20", "C20"),
     "C17": ("scen_c17", "C17"),
 }
 
